@@ -26,6 +26,7 @@ Line protocol of the C03 model driver.
                                 pickle round trip of the object with channels `scope`; one `|` group per
                                 composite, innermost first (the seven fields of `Data.Comp`)
       submit <n> <c>=<v>...     run with an executor: admission only     complete <n>   the job finishes
+      mutate <k> <k'>           the mutable object that was value k is changed in place into value k'
     setup, continued:
       cache <n> 0|1             use_cache of node n
       kids <n> <k>...           children of composite n in execution order      deps <k> <d>...
@@ -214,6 +215,10 @@ def stepLine (st : St) (ws : List String) : St × List String :=
   | "submit" :: n :: kw =>
     match n.toNat?, parseKw kw with
     | some n, some kw => doOp st (.submit n kw)
+    | _, _ => bad
+  | ["mutate", k, k'] =>
+    match k.toNat?, k'.toNat? with
+    | some k, some k' => doOp st (.mutate k k')
     | _, _ => bad
   | ["complete", n] =>
     match n.toNat? with
